@@ -117,6 +117,11 @@ def native(script, payload, timeout=90):
 
 
 def main():
+    if os.environ.get("PYTHONHASHSEED") != "0":
+        # reproducible verification conditions: the engine iterates over Python sets of names; with a random hash seed
+        # the same tree gives differently ordered (and for z3 differently behaving) queries from run to run
+        os.environ["PYTHONHASHSEED"] = "0"
+        os.execv(sys.executable, [sys.executable] + sys.argv)
     ap = argparse.ArgumentParser()
     ap.add_argument("prop")
     ap.add_argument("--tier", default=os.environ.get("VERIF_TIER", "quick"), choices=["quick", "thorough"])
